@@ -28,6 +28,8 @@ def run(ctx):
                             "phase; quick: <=5 per scenario, thorough: <=40) with that invocation raising, sometimes "
                             "with a second failure later, followed by two more sends; non-trivial = the injected fault "
                             "was reached (a user exception escaped send); distinct = hash of scenario text")
+    from framework import run_py_corpus
+    ctx.coverage["corpus_programs"] = run_py_corpus(ctx)
     k = 5 if ctx.tier == "quick" else 40
     engine_check(ctx, PROFILE, 900, 30000, nontrivial, monitor=monitor, tag="C04s", expand=fault_variants(k))
     cov1 = dict(ctx.coverage)
